@@ -30,6 +30,7 @@ ATTACH = {
     'helpers_probes.rs': 'mla/src/helpers.rs',
     'capi_probes.rs': 'bindings/C/src/lib.rs',
     'mlar_probes.rs': 'mlar/src/main.rs',
+    'mlar_e2e_probes.rs': 'mlar/src/main.rs',
     'parser_probes.rs': 'curve25519-parser/src/lib.rs',
 }
 # cargo package that holds each attach file (default: mla)
@@ -99,10 +100,16 @@ def run_probe(tests, keep=False, _only=None):
         failed = []
         build_err = None
         for t in tests:
-            pkg = 'mla-bindings-c' if 'capi_probes' in t else 'mlar' if 'mlar_probes' in t else 'curve25519-parser' if 'parser_probes' in t else 'mla'
+            pkg = 'mla-bindings-c' if 'capi_probes' in t else 'mlar' if ('mlar_probes' in t or 'mlar_e2e_probes' in t) else 'curve25519-parser' if 'parser_probes' in t else 'mla'
             target = ['--bin', 'mlar'] if pkg == 'mlar' else ['--lib']
             cmd = ['cargo', 'test', '--offline', '-p', pkg] + target + ['--', '--exact', t, '--test-threads', '1']
-            p = subprocess.run(cmd, cwd=SCRATCH, env=env, capture_output=True, text=True, timeout=3000)
+            try:
+                p = subprocess.run(cmd, cwd=SCRATCH, env=env, capture_output=True, text=True, timeout=1500)
+            except subprocess.TimeoutExpired:
+                # a probe that does not come back is a failing input of the "terminates" side of its clause, not a tool error
+                results[t] = {'status': 'FAILED', 'output': 'the test did not finish within 1500 s: the code under test HANGS (or is unreasonably slow)'}
+                failed.append(t)
+                continue
             out = p.stdout[-6000:]
             if 'error: could not compile' in p.stderr or 'error[E' in p.stderr:
                 build_err = p.stderr[-4000:]
